@@ -24,6 +24,7 @@ type c04Op struct {
 	Ms    int64  `json:"ms,omitempty"`
 	Delta int    `json:"delta,omitempty"`
 	Pick  int    `json:"pick,omitempty"`
+	Pad   int    `json:"pad,omitempty"` // value padding in percent of the table size: rolls the fragment over to new tables
 }
 
 type c04Case struct {
@@ -47,14 +48,17 @@ func genC04(t *rapid.T) *c04Case {
 	}
 	c.Keys = rapid.IntRange(1, 3).Draw(t, "keys")
 	n := rapid.IntRange(3, 25).Draw(t, "nops")
-	kinds := []string{"put", "put", "put", "expire", "getput", "incr", "decr", "incrbyfloat", "del", "lock", "unlock", "lease", "expiresoon", "evict"}
+	kinds := []string{"put", "put", "put", "fill", "fill", "expire", "getput", "incr", "decr", "incrbyfloat", "del", "lock", "unlock", "lease", "expiresoon", "evict"}
 	for i := 0; i < n; i++ {
 		op := c04Op{Op: rapid.SampledFrom(kinds).Draw(t, "op")}
 		op.K = rapid.IntRange(0, c.Keys-1).Draw(t, "k")
 		op.Path = rapid.IntRange(1, 6).Draw(t, "path")
 		op.Pick = rapid.IntRange(0, 3).Draw(t, "pick")
 		switch op.Op {
+		case "fill":
+			op.Pad = rapid.SampledFrom([]int{20, 35, 45}).Draw(t, "pad")
 		case "put":
+			op.Pad = rapid.SampledFrom([]int{0, 0, 0, 20, 45}).Draw(t, "pad")
 			op.Opt.Cond = rapid.SampledFrom([]string{"", "", "NX", "XX"}).Draw(t, "cond")
 			op.Opt.Exp = rapid.SampledFrom([]string{"", "", "EX", "PX", "EXAT", "PXAT"}).Draw(t, "exp")
 			if op.Opt.Exp != "" {
@@ -167,8 +171,19 @@ func runC04(c *c04Case) (v *vcommon.Violation, nontrivial bool, inconclusive boo
 		var r vRes
 		class := op.Op
 		switch op.Op {
+		case "fill":
+			// a neighbour key of the same partition family: large values move the write position to newer tables
+			ts := c.Opts.TableSize
+			if ts == 0 {
+				ts = 2048
+			}
+			r = pc.put(ctx, fmt.Sprintf("%s-fill%d", key, i%3), bytes.Repeat([]byte{'f'}, ts*op.Pad/100), putOpt{})
 		case "put":
-			r = pc.put(ctx, key, []byte(fmt.Sprintf("v%d", i)), op.Opt)
+			val := []byte(fmt.Sprintf("v%d", i))
+			if ts := c.Opts.TableSize; ts > 0 && op.Pad > 0 {
+				val = append(val, bytes.Repeat([]byte{'p'}, ts*op.Pad/100)...)
+			}
+			r = pc.put(ctx, key, val, op.Opt)
 			if existing[op.K] && (op.Opt.Cond != "" || op.Opt.Exp != "") {
 				nontrivial = true
 			}
